@@ -110,6 +110,7 @@ class LifeRun:
                 fil.write("{}")
         self.transport, self.counters, self.patches = make_transport(scen["transport"], scen["connect_fail"], scen["disconnect_fail"])
         scen.setdefault("connect_cancel", False)
+        scen.setdefault("external_edit", False)
         if scen["connect_cancel"]:
             self.transport.connect_hangs = True
         self.gateway = Gateway(self.transport, Config(persistence_file=self.path))
@@ -129,6 +130,8 @@ class LifeRun:
             # the same Gateway object was already used for a complete session (reconnect loop)
             async def prior():
                 async with self.gateway:
+                    if scen.get("external_edit"):
+                        self.gateway.nodes[90] = Node(90, 17, "2.0")
                     await asyncio.sleep(0)
             t0 = self.loop.create_task(prior(), name="main")
             guard = 0
@@ -144,6 +147,16 @@ class LifeRun:
             if scen["transport"] == "fake":
                 self.transport.connected = 0
                 self.transport.disconnected = 0
+            if scen.get("external_edit"):
+                # between the sessions the file is edited (another program, a restored backup): node 90 now has level 77
+                try:
+                    with open(self.path, encoding="utf-8") as fil:
+                        data = json.load(fil)
+                    data["90"]["battery_level"] = 77
+                    with open(self.path, "w", encoding="utf-8") as fil:
+                        json.dump(data, fil)
+                except Exception as err:  # noqa: BLE001
+                    self.prior_error = "edit failed: " + type(err).__name__
         self.main = self.loop.create_task(self._main(), name="main")
         self.loop.settle()
         # loading happens before any concurrency exists (no saver yet): its file jobs complete at once
@@ -185,6 +198,19 @@ class LifeRun:
         except Exception:  # noqa: BLE001
             return -1   # partial / unreadable
 
+    def marks(self) -> tuple[int, int]:
+        """Battery level of node 90 in the registry and in the file (-1: not there / unreadable)."""
+        node = self.gateway.nodes.get(90)
+        reg = node.battery_level if node is not None and isinstance(node.battery_level, int) else -1
+        disk = -1
+        try:
+            with open(self.path, encoding="utf-8") as fil:
+                val = json.load(fil)["90"]["battery_level"]
+            disk = val if isinstance(val, int) else -1
+        except Exception:  # noqa: BLE001
+            pass
+        return reg, disk
+
     def alive(self) -> int:
         return sum(1 for t in asyncio.all_tasks(self.loop) if not t.done() and t is not self.main)
 
@@ -193,6 +219,7 @@ class LifeRun:
         ev = {"e": what, "t": int(self.loop.time()), "disk": self.disk(), "reg": self.reg_ver(), "inside": self.inside,
               "alive": self.alive(), "pending": len(self.loop.pending_jobs()), "connects": c, "disconnects": dcount,
               "main_done": self.main.done(), "owner": "", "kind": "", "mode": ""}
+        ev["mark"], ev["dmark"] = self.marks()
         ev.update(extra)
         if ev["main_done"] and not self.saw_exit:
             self.saw_exit = True
@@ -414,6 +441,7 @@ def scenarios(tier: str) -> list[dict]:
     out.append(dict(base, transport="fake", connect_fail=False, disconnect_fail=False, finish="ok", file="missing"))
     out.append(dict(base, transport="fake", connect_fail=False, disconnect_fail=False, finish="ok", prior_session=True, max_ticks=2))
     out.append(dict(base, transport="fake", connect_fail=False, disconnect_fail=False, finish="raise", prior_session=True, max_ticks=2, max_run_only=0))
+    out.append(dict(base, transport="fake", connect_fail=False, disconnect_fail=False, finish="ok", prior_session=True, external_edit=True, max_ticks=1, max_run_only=0))
     for kind in ("tcp", "serial", "mqtt"):
         out.append(dict(base, transport=kind, connect_fail=False, disconnect_fail=False, finish="ok", max_run_only=0))
         out.append(dict(base, transport=kind, connect_fail=True, disconnect_fail=False, finish="ok", max_run_only=0))
@@ -433,7 +461,7 @@ def judge(runs: list, workdir: str, shards: int):
             return [], 0
         path = os.path.join(workdir, f"life-runs-{k}.json")
         with open(path, "w") as fil:
-            json.dump({"runs": [{"scen": {a: b for a, b in r["scen"].items() if a in ("connect_fail", "connect_cancel", "disconnect_fail", "finish", "transport")},
+            json.dump({"runs": [{"scen": {a: b for a, b in r["scen"].items() if a in ("connect_fail", "connect_cancel", "external_edit", "disconnect_fail", "finish", "transport")},
                                  "events": r["events"]} for r in part]}, fil)
         out = tlc.run(workdir, "LifecycleMonitor", "LifecycleMonitor.cfg", workers=1, env={"TRACE_FILE": path})
         os.unlink(path)
